@@ -599,7 +599,12 @@ impl<'a> Gen<'a> {
                 .collect();
             let k = self.t.pick(tt.len());
             b.stmts.push(Stmt::Thread(tt[k].clone()));
-            b.stmts.push(Stmt::Done);
+            // `-> END` instead of `-> DONE` ends the story whatever the thread offered
+            if self.t.chance(1, 4) {
+                b.stmts.push(Stmt::End);
+            } else {
+                b.stmts.push(Stmt::Done);
+            }
         } else if must_end {
             // occasionally the author forgot the terminator: content simply runs out
             // (an error, unless the flow already made a safe exit)
